@@ -905,6 +905,27 @@ func (k *vCtl) reqWriteControl() {
 		k.stLabels, k.stKnown = []string{"START"}, w == "ok" && fault == ""
 		k.wActive, k.wPaused = true, false
 		k.wOff = of
+		defer func() {
+			// straight away, in a third of the runs: a request that would change only the pre-trigger length of the records (the
+			// files' headers state it) must be refused while the run is being written, paused or not
+			if !k.dead && k.wActive && k.gate() == "" && !k.lenUnknown && vChance(r, 0.35) {
+				var okay bool
+				if vChance(r, 0.5) {
+					k.do("WriteControl(\"PAUSE\")", k.queuedWant("ok"), func() error { return k.sc.WriteControl(&WriteControlConfig{Request: "PAUSE"}, &okay) })
+					k.wPaused = true
+				}
+				np := k.npre + 1
+				if np >= k.ns {
+					np = k.npre - 1
+				}
+				if np >= 3 && !k.dead {
+					k.c.Cov("pretrigger_only_changes_requested_while_writing", 1)
+					k.do(fmt.Sprintf("ConfigurePulseLengths(nsamp=%d,npre=%d) [only the pre-trigger length, while writing]", k.ns, np), "err", func() error {
+						return k.sc.ConfigurePulseLengths(SizeObject{Nsamp: k.ns, Npre: np}, &okay)
+					})
+				}
+			}
+		}()
 		ws := k.sc.ActiveSource.ComputeWritingState()
 		k.wDir = filepath.Dir(ws.FilenamePattern)
 		k.comment = ""
